@@ -130,6 +130,9 @@ class Sched(object):
         self.chooser = chooser
         self.threads = []
         self.by_ident = {}
+        # default thread names ("Thread-N") number the threads of this
+        # execution, so that two executions of one schedule have equal traces
+        VThread._counter[0] = 0
         self.now = 1000.0
         self.steps = 0
         self.max_steps = max_steps
